@@ -120,4 +120,43 @@ VARIANTS = [
      "new": "_TE_COORD_MIN = -1.000030518509476\nTE_S16_COORD = se.QuantizedFloat(se.S16, _TE_COORD_MIN, 1.0, zero_median=False)"},
     {"name": "X R3 different but valid range", "file": TMPL, "expect": "miss",
      "old": '"Acceleration": se.Vector3U16(-64.0, 64.0),', "new": '"Acceleration": se.Vector3U16(-32.0, 32.0),'},
+
+    # ---------------------------------------------------------------- R1 wrappers / R4 purity (strengthening round)
+    {"name": "R1 decode wrapper rounds the kernel's result for display", "file": SER, "expect": "C10.R1",
+     "old": "        return self._quantized_to_float(val, self.lower, self.upper)\n",
+     "new": "        return round(self._quantized_to_float(val, self.lower, self.upper), 6)\n"},
+    {"name": "R1 decode wrapper replaces tiny values by a constant", "file": SER, "expect": "C10.R1",
+     "old": "        return self._quantized_to_float(val, self.lower, self.upper)\n",
+     "new": "        res = self._quantized_to_float(val, self.lower, self.upper)\n"
+            "        if abs(res) < 1e-12:\n            return 0.0\n        return res\n"},
+    {"name": "R1 encode wrapper pre-scales its argument", "file": SER, "expect": "C10.R1",
+     "old": "        return self._float_to_quantized(val, self.lower, self.upper)\n",
+     "new": "        val = float(val) * 1.0000001\n        return self._float_to_quantized(val, self.lower, self.upper)\n"},
+    {"name": "P R1 wrapper result through a local of the same name", "file": SER, "expect": "silent",
+     "old": "        return self._quantized_to_float(val, self.lower, self.upper)\n",
+     "new": "        val = self._quantized_to_float(val, self.lower, self.upper)\n        return val\n"},
+    {"name": "R4 numpy decode converts without copying, then scales in place", "file": SER, "expect": "C10.R4",
+     "old": "        val = val.astype(np.float64)\n", "new": "        val = val.astype(np.float64, copy=False)\n"},
+    {"name": "R4 numpy encode works on a view of its argument", "file": SER, "expect": "C10.R4",
+     "old": "        val = np.array(val, dtype=np.float64)\n        val = np.clip(val, self.lower, self.upper)\n",
+     "new": "        val = np.ascontiguousarray(val, dtype=np.float64)\n        val.clip(self.lower, self.upper, out=val)\n"},
+    {"name": "R4 encode of key-frame times memoised on the float value only", "expect": "C10.R4",
+     "edits": [{"file": ANIM, "old": "        super().__init__(prim_spec, zero_median=False)\n",
+                "new": "        super().__init__(prim_spec, zero_median=False)\n        self._enc = {}\n"},
+               {"file": ANIM, "old": "        return self._float_to_quantized(val, 0.0, self._get_upper_limit(ctx))\n",
+                "new": "        if val not in self._enc:\n"
+                       "            self._enc[val] = self._float_to_quantized(val, 0.0, self._get_upper_limit(ctx))\n"
+                       "        return self._enc[val]\n"}]},
+    {"name": "P R4 in-place clip after an explicit copy", "file": SER, "expect": "silent",
+     "old": "        val = np.array(val, dtype=np.float64)\n        val = np.clip(val, self.lower, self.upper)\n",
+     "new": "        val = np.array(val, dtype=np.float64, copy=True)\n        np.clip(val, self.lower, self.upper, out=val)\n"},
+    {"name": "P R4 memo keyed by the raw value and the context-dependent limit", "expect": "silent",
+     "edits": [{"file": ANIM, "old": "        super().__init__(prim_spec, zero_median=False)\n",
+                "new": "        super().__init__(prim_spec, zero_median=False)\n        self._memo = {}\n"},
+               {"file": ANIM, "old": "        return self._quantized_to_float(val, 0.0, self._get_upper_limit(ctx))\n",
+                "new": "        limit = self._get_upper_limit(ctx)\n"
+                       "        key = (val, limit)\n"
+                       "        if key not in self._memo:\n"
+                       "            self._memo[key] = self._quantized_to_float(val, 0.0, limit)\n"
+                       "        return self._memo[key]\n"}]},
 ]
